@@ -17,17 +17,12 @@ Record tycase := {
 Definition sound (c : tycase) : bool :=
   match c_obs c with Accepted w => conforms (c_ty c) w | Rejected => true | Crashed => false end.
 
-(* command-line / config TEXT is of the right shape when what YAML reads it as is (not a str: a str stays the text itself) *)
+(* command-line / config TEXT is of the right shape when what YAML reads it as is (not a str: a str stays the text itself;
+   blank text and '-' stay text for the parser). `text_shaped` (Spec/C02Defs.v) is the premise of
+   C02_text_of_right_shape_accepted (Properties/C02.v): inside the guard the model accepts such a text *)
 Definition text_right_shape (c : tycase) : bool :=
   match c_in c with
-  | VStr s => match strip s with
-              | [] => false                       (* blank text is not YAML's null for the parser: it stays the text *)
-              | _ => if str_eqb (strip s) [45%N] then false
-                     else match case_yload (c_oracle c) s with
-                          | LVal x => negb (is_str x) && shaped (c_ty c) x
-                          | _ => false
-                          end
-              end
+  | VStr s => text_shaped (case_yload (c_oracle c)) (c_ty c) s
   | _ => false
   end.
 
@@ -82,8 +77,11 @@ Record xcase := {
   x_dflt : option val;                (* add_argument(default=...) — assumed to conform *)
   x_in : val; x_oracle : list (str * lres);
   x_opq : opq_table;                  (* observed adapt_typehints(value, opaque hint): AOk w, AErr ErrValue / ErrType *)
-  x_pred : list (str * str * bool);   (* (restricted string type, text, does the DECLARED pattern with its flags match) —
-                                         evaluated by Python's re in the harness process, independently of /repo *)
+  x_pred : list (str * str * bool);   (* (restricted type, text, does the DECLARED predicate hold: the compiled pattern with its
+                                         flags for a restricted string, the declared comparisons for a restricted number given
+                                         as the decimal text of the number) — evaluated in the harness process (Python re /
+                                         arithmetic), independently of /repo *)
+  x_tdopt : list (str * str);         (* (TypedDict class, field) for the fields declared NotRequired *)
   x_obs : obs;
   x_parts : list bool;                (* the same input under each member alone (no default) *)
   x_perms : list (list nat * bool) }. (* the same input under Union[members permuted] *)
@@ -98,7 +96,10 @@ Fixpoint pred_lookup (tbl : list (str * str * bool)) (n s : str) : option bool :
 Definition has_pred (tbl : list (str * str * bool)) (n : str) : bool := existsb (fun e => str_eqb n (fst (fst e))) tbl.
 
 (* a TypedDict value: a dict with exactly the declared keys, every value conforming to its field *)
-Definition conforms_td (strict : bool) (fs : list (str * ty)) (w : val) : bool :=
+Definition td_opt (tdo : list (str * str)) (n : str) : list str :=
+  map snd (filter (fun p => str_eqb (fst p) n) tdo).
+
+Definition conforms_td (strict : bool) (fs : list (str * ty)) (opt : list str) (w : val) : bool :=
   match w with
   | VNone => negb strict
   | VDict d =>
@@ -109,11 +110,12 @@ Definition conforms_td (strict : bool) (fs : list (str * ty)) (w : val) : bool :
                                      end
                          | _ => false
                          end) d
-      && forallb (fun f => existsb (fun kv => match fst kv with VStr k => str_eqb k (fst f) | _ => false end) d) fs
+      && forallb (fun f => mem_str (fst f) opt
+                           || existsb (fun kv => match fst kv with VStr k => str_eqb k (fst f) | _ => false end) d) fs
   | _ => false
   end.
 
-Definition conforms_m (pr : list (str * str * bool)) (m : member) (w : val) : bool :=
+Definition conforms_m (pr : list (str * str * bool)) (tdo : list (str * str)) (m : member) (w : val) : bool :=
   match m with
   | MTy t => conforms t w
   | MOpq n => match w with
@@ -121,17 +123,18 @@ Definition conforms_m (pr : list (str * str * bool)) (m : member) (w : val) : bo
               | VNone => true
               | _ => false
               end
-  | MTd _ fs => conforms_td false fs w
+  | MTd n fs => conforms_td false fs (td_opt tdo n) w
   end.
-Definition shaped_m (pr : list (str * str * bool)) (m : member) (v : val) : bool :=
+Definition shaped_m (pr : list (str * str * bool)) (tdo : list (str * str)) (m : member) (v : val) : bool :=
   match m with
   | MTy t => wf_ty t && shaped t v
   | MOpq n => match v with
               | VOpaque k _ => str_eqb k n
               | VStr s => match pred_lookup pr n s with Some b => b | None => false end   (* the declared predicate holds *)
+              | VInt z => match pred_lookup pr n (str_of_Z z) with Some b => b | None => false end  (* restricted number *)
               | _ => false
               end
-  | MTd _ fs => conforms_td true fs v
+  | MTd n fs => conforms_td true fs (td_opt tdo n) v
   end.
 
 Definition impl_xd (c : xcase) (d : option val) (ms : list member) : obs :=
@@ -142,8 +145,8 @@ Definition permute (ms : list member) (idx : list nat) : list member := map (fun
 
 Definition x_spec (c : xcase) : bool :=
   let acc := is_accepted (x_obs c) in
-  match x_obs c with Accepted w => existsb (fun m => conforms_m (x_pred c) m w) (x_ms c) | Rejected => true | Crashed => false end
-  && (if existsb (fun m => shaped_m (x_pred c) m (x_in c)) (x_ms c) then acc else true)
+  match x_obs c with Accepted w => existsb (fun m => conforms_m (x_pred c) (x_tdopt c) m w) (x_ms c) | Rejected => true | Crashed => false end
+  && (if existsb (fun m => shaped_m (x_pred c) (x_tdopt c) m (x_in c)) (x_ms c) then acc else true)
   && forallb (fun p => Bool.eqb acc (snd p)) (x_perms c)
   && match x_ms c, x_in c with
      | _, VNone => true                                     (* None for a key means "unset" *)
@@ -167,7 +170,20 @@ Definition x_class (c : xcase) : N :=
 Inductive case :=
 | TyCase (c : tycase)
 | GroupCase (fields : list (str * ty)) (v : val) (o : obs)
-| XCase (c : xcase).
+| XCase (c : xcase)
+(* parse_args(['--k.<key>=<text>']) on a key of type Dict[str|int, t] (Model/C02Ext.v parse_key_nested) *)
+| NestedCase (int_keys : bool) (t : ty) (key text : str) (oracle : list (str * lres)) (o : obs).
+
+(* the nested channel: what is accepted is a dict of the declared shape; a text that has the item type's shape itself (a str
+   item type takes every text) or that YAML reads as a non-str value of that shape, under a key of the declared kind, is accepted *)
+Definition nested_spec (ik : bool) (t : ty) (key s : str) (orc : list (str * lres)) (o : obs) : bool :=
+  let yl := case_yload orc in
+  let key_ok := if ik then match signed_int (strip key) with Some _ => true | None => false end else true in
+  match o with Accepted w => conforms (TDict ik t) w | Rejected => true | Crashed => false end
+  && (if key_ok && wf_ty t
+         && (shaped t (VStr s)          (* the text itself has the item type's shape (str, Literal of that text, ...) *)
+             || text_right_shape {| c_ty := t; c_in := VStr s; c_oracle := orc; c_obs := o; c_parts := None; c_perms := [] |})
+      then is_accepted o else true).
 
 Definition judge1 (c : case) : verdict :=
   match c with
@@ -178,6 +194,11 @@ Definition judge1 (c : case) : verdict :=
          v_class := group_class yl fs v;
          v_spec := match o with Accepted w => group_conforms fs w | Rejected => true | Crashed => false end |}
   | XCase c => {| v_model := x_model c; v_class := x_class c; v_spec := x_spec c |}
+  | NestedCase ik t key s orc o =>
+      let yl := case_yload orc in
+      {| v_model := obs_eqb (obs_of (parse_key_nested pinned yl ik t key s)) o && oracle_consistent orc;
+         v_class := class_in yl (TDict ik t) (VDict [(VStr key, VStr s)]);
+         v_spec := nested_spec ik t key s orc o |}
   end.
 
 Definition judge (cs : list case) := judge_all judge1 cs.
